@@ -1,9 +1,14 @@
 #!/bin/bash
-# runmut.sh <patch> <prop> [tier]: apply a seeded change to /repo, run the check, undo.
+# runmut.sh <patch> <prop> [tier]: run a check against a seeded change WITHOUT touching /repo:
+# a scratch worktree under /tmp gets the patch, the check runs against it (VERIF_REPO), the
+# worktree is removed. Evidence/replays written describe the broken tree: re-run the check on
+# the clean tree before committing evidence.
 set -u
-patch=$1; prop=$2; tier=${3:-quick}
-cd /repo && git status --short | grep -q . && { echo "repo not clean"; exit 2; }
-git apply "$patch" || exit 2
-cd /verif && ./vcheck.sh $prop $tier 2>&1 | grep -v "^VIOLATION" | tail -2; rc=${PIPESTATUS[0]}
-cd /repo && git checkout -- . && git status --short
+patch=$(readlink -f "$1"); prop=$2; tier=${3:-quick}
+cd "$(dirname "$(readlink -f "$0")")"
+wt=$(mktemp -d /tmp/verif-mut.XXXXXX); rmdir $wt
+git -C /repo worktree add --detach $wt HEAD -q || exit 2
+git -C $wt apply "$patch" || { git -C /repo worktree remove --force $wt; exit 2; }
+VERIF_REPO=$wt ./vcheck.sh $prop $tier 2>&1 | grep -v "^VIOLATION" | tail -2; rc=${PIPESTATUS[0]}
+git -C /repo worktree remove --force $wt; git -C /repo worktree prune
 echo "check exit code: $rc"
